@@ -67,6 +67,8 @@ WRITERS = [
     ["->", ["==", H0, T("1")], ["=", ["v", "w"], [], H1]],
     ["->", ["==", H0, T("1")], ["=", ["v", "p2"], [], fn("pop", [], [T("s")])]],
     ["->", ["==", H1, T("9")], ["=", ["v", "p3"], [], fn("pop", [], [T("s")])]],
+    ["=", ["v", "rf"], [], ["v", "cb", "False"]],
+    ["=", ["v", "rt"], [], ["v", "cb", "True"]],
     fn("every", ["ev"], [H0, T(2)]),
     fn("every", ["eb"], [["==", H0, T("1")], T(2)]),
 ]
@@ -153,7 +155,8 @@ def norm(v):
     """tuple/list, int/float distinctions are JSON-irrelevant."""
     if isinstance(v, dict):
         # None-valued and empty-stack variables are not distinguished from unset ones (pop/peek of an unset stack: docs are silent)
-        return {str(k): norm(x) for k, x in v.items() if x is not None and x != [] and x != ()}
+        out = {str(k): norm(x) for k, x in v.items() if x is not None and x != [] and x != ()}
+        return {k: x for k, x in out.items() if x != {}}  # reading @v.key of an unset v leaves an empty dict / a None entry behind
     if isinstance(v, (list, tuple)):
         return [norm(x) for x in v]
     if isinstance(v, bool):
